@@ -26,7 +26,7 @@ loops terminate with a terminal status (fuel suffices).
 
 Part 3: the same for PMR, PCGNR, PCR (needs the additional linearity law `LawfulLin`, because `q_k = F A p_k` is updated by
 recurrence) and BiCGStab (including its half-step exits).  `C07.success_without_defect_calc_witness` exhibits the point
-excluded by the hypothesis `calcDef = true` (open finding c07-edge:F3).
+formerly excluded by a hypothesis `calcDef = true` (finding c07-edge:F3, fixed: `C07.stale_defect_run_reports_max_iter`).
 
 Not proved here (observed by the correspondence run only): finite termination / convergence of the Krylov iterations on
 SPD systems; floating-point drift.
@@ -56,21 +56,22 @@ theorem C07.aborted_initial (c : Config α) (prev : State α) (fin : Bool) (d : 
     (h : setInitialDefect c prev fin d = (st, s)) : st = .aborted ↔ fin = false :=
   (setInitial_spec c prev fin d _ _ h).2.1
 
-/-- `success` after `_set_new_defect`: the stored defect meets the configured tolerances, is not diverged,
-    at least `min_iter` iterations were made, and the stored defect is the new one whenever it was computed -/
+/-- `success` after `_set_new_defect`: the defect WAS computed in this step (`calcDef`; since the fix of finding
+    c07-edge:F3 a converged-looking stale defect is reported as `max_iter`), it is finite and is the stored one, it
+    meets the configured tolerances, is not diverged, and at least `min_iter` iterations were made -/
 theorem C07.success_sound (c : Config α) (s s' : State α) (fin : Bool) (d : α)
     (h : setNewDefect c s fin d = (.success, s')) :
     s'.defCur ≤ c.tolAbs ∧ (s'.defCur ≤ c.tolRel * s'.defInit ∨ s'.defCur ≤ c.tolAbsLow) ∧
       ¬ Diverged c s'.defInit s'.defCur ∧ c.minIter ≤ s'.numIter ∧ s'.numIter = s.numIter + 1 ∧
-      s'.defInit = s.defInit ∧ (calcDef c (s.numIter + 1) = true → s'.defCur = d ∧ fin = true) := by
+      s'.defInit = s.defInit ∧ calcDef c (s.numIter + 1) = true ∧ s'.defCur = d ∧ fin = true := by
   have hf := setNew_frame c s s' fin d _ h
-  unfold setNewDefect at h
-  obtain ⟨h1, h2, _, h4, h5⟩ := analyse_frame c _ _ _ _ h
-  have hs := (analyse_spec c _ _ _ _ h).2.2.1.1 rfl
-  rw [← h1, ← h2, ← h4, ← h5] at hs
-  refine ⟨hs.2.2.2.1, hs.2.2.2.2, hs.2.1, hs.2.2.1, hf.1, hf.2.1, fun hc => ?_⟩
-  have := hf.2.2.2.1 hc
-  exact ⟨this.1, by rw [← this.2]; exact hs.1⟩
+  obtain ⟨stRaw, _, _, hsu, _, _, _, hcase⟩ := setNew_spec c s s' fin d _ h
+  rcases hcase with ⟨e, hc⟩ | ⟨_, e, _⟩
+  · have hs := hsu.1 e.symm
+    have hcd := hc rfl
+    have := hf.2.2.2.1 hcd
+    exact ⟨hs.2.2.2.1, hs.2.2.2.2, hs.2.1, hs.2.2.1, hf.1, hf.2.1, hcd, this.1, by rw [← this.2]; exact hs.1⟩
+  · cases e
 
 /-- the same for `_update_defect` (which always stores the given defect) -/
 theorem C07.success_sound_update (c : Config α) (s s' : State α) (fin : Bool) (d : α)
@@ -82,36 +83,51 @@ theorem C07.success_sound_update (c : Config α) (s s' : State α) (fin : Bool) 
   have hs := (analyse_spec c _ _ _ _ h).2.2.1.1 rfl
   exact ⟨hs.2.2.2.1, hs.2.2.2.2, hs.2.1, hs.2.2.1, hs.1, hf.2.2.2.1⟩
 
-/-- `max_iter`: the iteration limit is reached, `min_iter` too, and the defect is neither converged nor diverged -/
+/-- `max_iter`: the iteration limit is reached, `min_iter` too, the defect is finite and not diverged, and it is not
+    converged — or it was not computed in this step (fixed iteration count with skipped defect computation), in which
+    case nothing is claimed about convergence -/
 theorem C07.max_iter_sound (c : Config α) (s s' : State α) (fin : Bool) (d : α)
     (h : setNewDefect c s fin d = (.maxIter, s')) :
-    c.maxIter ≤ s'.numIter ∧ c.minIter ≤ s'.numIter ∧ ¬ Converged c s'.defInit s'.defCur ∧
+    c.maxIter ≤ s'.numIter ∧ c.minIter ≤ s'.numIter ∧
+      (¬ Converged c s'.defInit s'.defCur ∨ calcDef c (s.numIter + 1) = false) ∧
       ¬ Diverged c s'.defInit s'.defCur ∧ s'.curFin = true := by
-  unfold setNewDefect at h
-  obtain ⟨h1, h2, _, h4, h5⟩ := analyse_frame c _ _ _ _ h
-  have hs := (analyse_spec c _ _ _ _ h).2.2.2.1.1 rfl
-  rw [← h1, ← h2, ← h4, ← h5] at hs
-  exact ⟨hs.2.2.2.2, hs.2.2.1, hs.2.2.2.1, hs.2.1, hs.1⟩
+  obtain ⟨stRaw, _, _, hsu, hm, _, _, hcase⟩ := setNew_spec c s s' fin d _ h
+  rcases hcase with ⟨e, _⟩ | ⟨e, _, hcf⟩
+  · have hs := hm.1 e.symm
+    exact ⟨hs.2.2.2.2, hs.2.2.1, Or.inl hs.2.2.2.1, hs.2.1, hs.1⟩
+  · have hs := hsu.1 e
+    have := calcDef_false_iters c _ hcf
+    exact ⟨by omega, hs.2.2.1, Or.inr hcf, hs.2.1, hs.1⟩
+
+/-- a `success` verdict of `_analyse_defect` on a defect that was not computed is reported as `max_iter` -/
+theorem C07.stale_success_is_max_iter (c : Config α) (s : State α) (fin : Bool) (d : α)
+    (hc : calcDef c (s.numIter + 1) = false) (hraw : (setNewDefectRaw c s fin d).1 = .success) :
+    (setNewDefect c s fin d).1 = .maxIter := by
+  simp only [setNewDefect, hc, hraw, Bool.not_false, Bool.true_and, decide_true, ↓reduceIte]
 
 /-- `diverged` is reported exactly when the (finite) stored defect exceeds a divergence limit — also before
     `min_iter` iterations -/
 theorem C07.diverged_sound (c : Config α) (s s' : State α) (fin : Bool) (d : α) (st : Status)
     (h : setNewDefect c s fin d = (st, s')) :
     st = .diverged ↔ s'.curFin = true ∧ (c.divAbs < s'.defCur ∨ c.divRel * s'.defInit < s'.defCur) := by
-  unfold setNewDefect at h
-  obtain ⟨h1, h2, _, _, h5⟩ := analyse_frame c _ _ _ _ h
-  have hs := (analyse_spec c _ _ _ _ h).2.1
-  rw [← h1, ← h2, ← h5] at hs
-  exact hs
+  obtain ⟨stRaw, _, hd, hsu, _, _, _, hcase⟩ := setNew_spec c s s' fin d _ h
+  rcases hcase with ⟨e, _⟩ | ⟨e, e2, _⟩
+  · rw [e]; exact hd
+  · have hs := hsu.1 e
+    constructor
+    · intro e3; rw [e2] at e3; cases e3
+    · intro hdv; exact absurd hdv.2 hs.2.1
 
 /-- `aborted` is reported exactly when the stored defect is not finite -/
 theorem C07.aborted_sound (c : Config α) (s s' : State α) (fin : Bool) (d : α) (st : Status)
     (h : setNewDefect c s fin d = (st, s')) : st = .aborted ↔ s'.curFin = false := by
-  unfold setNewDefect at h
-  obtain ⟨_, _, _, _, h5⟩ := analyse_frame c _ _ _ _ h
-  have hs := (analyse_spec c _ _ _ _ h).1
-  rw [← h5] at hs
-  exact hs
+  obtain ⟨stRaw, ha, _, hsu, _, _, _, hcase⟩ := setNew_spec c s s' fin d _ h
+  rcases hcase with ⟨e, _⟩ | ⟨e, e2, _⟩
+  · rw [e]; exact ha
+  · have hs := hsu.1 e
+    constructor
+    · intro e3; rw [e2] at e3; cases e3
+    · intro hf; rw [hs.1] at hf; cases hf
 
 /-- `stagnated`: stagnation control is on, this iteration stagnated (`d_k ≥ stag_rate·d_{k−1}`), the counter reached
     `min_stag_iter`, and the solver was neither converged, diverged nor at its iteration limits -/
@@ -120,31 +136,28 @@ theorem C07.stagnated_step_sound (c : Config α) (s s' : State α) (fin : Bool) 
     0 < c.minStag ∧ c.stagRate * s'.defPrev ≤ s'.defCur ∧ c.minStag ≤ s'.numStag ∧ s'.numStag = s.numStag + 1 ∧
       ¬ Converged c s'.defInit s'.defCur ∧ ¬ Diverged c s'.defInit s'.defCur ∧
       c.minIter ≤ s'.numIter ∧ s'.numIter < c.maxIter := by
-  unfold setNewDefect at h
-  obtain ⟨h1, h2, h3, h4, _⟩ := analyse_frame c _ _ _ _ h
-  have hs := (analyse_spec c _ _ _ _ h).2.2.2.2.1 rfl
-  rw [← h1, ← h2, ← h3, ← h4] at hs
-  refine ⟨hs.2.1, hs.2.2.1, hs.2.2.2.2.1, ?_, hs.2.2.2.2.2.2.2.1, hs.2.2.2.2.2.2.2.2, hs.2.2.2.2.2.2.1,
-    hs.2.2.2.2.2.1⟩
-  rw [hs.2.2.2.1]
-  by_cases hc : calcDef c (s.numIter + 1) = true <;> simp [hc]
+  obtain ⟨stRaw, _, _, _, _, hst, _, hcase⟩ := setNew_spec c s s' fin d _ h
+  rcases hcase with ⟨e, _⟩ | ⟨_, e, _⟩
+  · have hs := hst e.symm
+    exact ⟨hs.1, hs.2.1, hs.2.2.2.1, hs.2.2.1, hs.2.2.2.2.2.2.1, hs.2.2.2.2.2.2.2, hs.2.2.2.2.2.1, hs.2.2.2.2.1⟩
+  · cases e
 
 /-- before `min_iter` iterations the only ways out are a non-finite or diverged defect -/
 theorem C07.min_iter_respected (c : Config α) (s s' : State α) (fin : Bool) (d : α) (st : Status)
     (h : setNewDefect c s fin d = (st, s')) (hmin : s'.numIter < c.minIter) :
     st = .progress ∨ st = .aborted ∨ st = .diverged := by
-  unfold setNewDefect at h
-  obtain ⟨_, _, _, h4, _⟩ := analyse_frame c _ _ _ _ h
-  have hs := analyse_spec c _ _ _ _ h
-  rw [← h4] at hs
-  cases st with
-  | progress => exact Or.inl rfl
-  | aborted => exact Or.inr (Or.inl rfl)
-  | diverged => exact Or.inr (Or.inr rfl)
-  | undefined => exact absurd rfl hs.2.2.2.2.2.2
-  | success => have := (hs.2.2.1.1 rfl).2.2.1; omega
-  | maxIter => have := (hs.2.2.2.1.1 rfl).2.2.1; omega
-  | stagnated => have := (hs.2.2.2.2.1 rfl).2.2.2.2.2.2.1; omega
+  obtain ⟨stRaw, _, _, hsu, hm, hst, hund, hcase⟩ := setNew_spec c s s' fin d _ h
+  rcases hcase with ⟨e, _⟩ | ⟨e, _, _⟩
+  · subst e
+    cases st with
+    | progress => exact Or.inl rfl
+    | aborted => exact Or.inr (Or.inl rfl)
+    | diverged => exact Or.inr (Or.inr rfl)
+    | undefined => exact absurd rfl hund
+    | success => have := (hsu.1 rfl).2.2.1; omega
+    | maxIter => have := (hm.1 rfl).2.2.1; omega
+    | stagnated => have := (hst rfl).2.2.2.2.2.1; omega
+  · have := (hsu.1 e).2.2.1; omega
 
 /-- precedence of the tests in `_analyse_defect`, exactly as coded: (1) non-finite ⇒ `aborted`; (2) diverged ⇒
     `diverged` (also before `min_iter`); (3) fewer than `min_iter` iterations ⇒ `progress` (even if converged or past
@@ -172,9 +185,11 @@ theorem C07.status_never_undefined (c : Config α) (prev s : State α) (fin : Bo
     (setNewDefect c s fin d).1 ≠ .undefined ∧ (updateDefect c s fin d).1 ≠ .undefined ∧
       (setInitialDefect c prev fin d).1 ≠ .undefined := by
   refine ⟨?_, ?_, ?_⟩
-  · have h : setNewDefect c s fin d = ((setNewDefect c s fin d).1, (setNewDefect c s fin d).2) := rfl
-    unfold setNewDefect at h
-    exact (analyse_spec c _ _ _ _ h).2.2.2.2.2.2
+  · obtain ⟨stRaw, _, _, _, _, _, hund, hcase⟩ := setNew_spec c s _ fin d _
+      (Prod.mk.eta (p := setNewDefect c s fin d)).symm
+    rcases hcase with ⟨e, _⟩ | ⟨_, e, _⟩
+    · rw [e]; exact hund
+    · rw [e]; simp
   · have h : updateDefect c s fin d = ((updateDefect c s fin d).1, (updateDefect c s fin d).2) := rfl
     unfold updateDefect at h
     exact (analyse_spec c _ _ _ _ h).2.2.2.2.2.2
@@ -262,7 +277,7 @@ theorem C07.norm_is_shared_sqrt {n : Nat} (v : RVec n) : vnorm v = FeatModel.Pro
 /-- PCG `correct()`: for EVERY preconditioner function, the run ends with a terminal status, the initial defect is the
     norm of the true filtered residual of the start vector (the start vector is honoured), and whenever iterations were
     made the status is judged from a defect that is the norm `ρ` of the TRUE filtered residual `F(b − A x)` of the
-    returned iterate (whenever that defect was computed, `calcDef`): `success` ⇒ `ρ` meets the tolerances, `max_iter` ⇒
+    returned iterate (`success` always rests on a computed defect): `success` ⇒ `ρ` meets the tolerances, `max_iter` ⇒
     limits reached and not converged, `diverged` ⇒ `ρ` exceeds a divergence limit, `stagnated` ⇒ stagnation facts -/
 theorem C07.pcg_correct_sound (S : Sys V α) (hl : Lawful S) (c : Config α) (prev : State α) (x0 b : V) (res : Result V α)
     (h : pcgCorrect S c prev x0 b = some res) :
@@ -272,9 +287,11 @@ theorem C07.pcg_correct_sound (S : Sys V α) (hl : Lawful S) (c : Config α) (pr
         (S.nrm (resid S b x0) < c.tolAbsLow ∨ S.nrm (resid S b x0) ≤ c.eps2)) ∧
       (0 < res.st.numIter →
         (calcDef c res.st.numIter = true → res.st.defCur = S.nrm (resid S b res.x)) ∧
-        (res.status = .success → Converged c (S.nrm (resid S b x0)) res.st.defCur ∧
+        (res.status = .success → calcDef c res.st.numIter = true ∧
+          Converged c (S.nrm (resid S b x0)) res.st.defCur ∧
           ¬ Diverged c (S.nrm (resid S b x0)) res.st.defCur ∧ c.minIter ≤ res.st.numIter) ∧
-        (res.status = .maxIter → ¬ Converged c (S.nrm (resid S b x0)) res.st.defCur ∧
+        (res.status = .maxIter →
+          (¬ Converged c (S.nrm (resid S b x0)) res.st.defCur ∨ calcDef c res.st.numIter = false) ∧
           ¬ Diverged c (S.nrm (resid S b x0)) res.st.defCur ∧ c.maxIter ≤ res.st.numIter ∧
           c.minIter ≤ res.st.numIter) ∧
         (res.status = .diverged → Diverged c (S.nrm (resid S b x0)) res.st.defCur) ∧
@@ -291,25 +308,25 @@ theorem C07.pcg_correct_sound (S : Sys V α) (hl : Lawful S) (c : Config α) (pr
 /-- the property's main clause for PCG in one line: `success` after at least one iteration ⇒ the true filtered
     residual of the returned iterate meets the configured absolute and relative tolerances -/
 theorem C07.pcg_success_true_residual (S : Sys V α) (hl : Lawful S) (c : Config α) (prev : State α) (x0 b : V) (res : Result V α)
-    (h : pcgCorrect S c prev x0 b = some res) (hs : res.status = .success) (hit : 0 < res.st.numIter)
-    (hc : calcDef c res.st.numIter = true) :
+    (h : pcgCorrect S c prev x0 b = some res) (hs : res.status = .success) (hit : 0 < res.st.numIter) :
     S.nrm (resid S b res.x) ≤ c.tolAbs ∧
       (S.nrm (resid S b res.x) ≤ c.tolRel * S.nrm (resid S b x0) ∨ S.nrm (resid S b res.x) ≤ c.tolAbsLow) := by
   have := (C07.pcg_correct_sound S hl c prev x0 b res h).2.2.2 (by rw [hs]; simp)
   have h2 := this.2 hit
-  rw [← h2.1 hc]
-  exact (h2.2.1 hs).1
+  have hsu := h2.2.1 hs
+  rw [← h2.1 hsu.1]
+  exact hsu.2.1
 
 /-- the same, instantiated for the system the driver executes: no hypotheses left besides the run itself -/
 theorem C07.pcg_rat_success_true_residual {n : Nat} (A : RMat n) (mask : Vector Bool n)
     (pre : Option (RMat n × Nat)) (c : Config Rat) (prev : State Rat) (x0 b : RVec n) (res : Result (RVec n) Rat)
     (h : pcgCorrect (ratSys A mask pre) c prev x0 b = some res) (hs : res.status = .success)
-    (hit : 0 < res.st.numIter) (hc : calcDef c res.st.numIter = true) :
+    (hit : 0 < res.st.numIter) :
     vnorm (maskF mask (vaxpy b (matVec A res.x) (-1))) ≤ c.tolAbs ∧
       (vnorm (maskF mask (vaxpy b (matVec A res.x) (-1))) ≤
           c.tolRel * vnorm (maskF mask (vaxpy b (matVec A x0) (-1))) ∨
         vnorm (maskF mask (vaxpy b (matVec A res.x) (-1))) ≤ c.tolAbsLow) :=
-  C07.pcg_success_true_residual (ratSys A mask pre) (C07.ratSys_lawful A mask pre) c prev x0 b res h hs hit hc
+  C07.pcg_success_true_residual (ratSys A mask pre) (C07.ratSys_lawful A mask pre) c prev x0 b res h hs hit
 
 /-- the systems with FEAT's own Jacobi / SOR / SSOR preconditioner (models of property C08) that the driver runs
     against the real solver + real preconditioner objects satisfy the same laws -/
@@ -321,13 +338,13 @@ theorem C07.ratSysF_lawful {n : Nat} (A : RMat n) (mask : Vector Bool n) (k : Fe
 theorem C07.pcg_feat_precond_success_true_residual {n : Nat} (A : RMat n) (mask : Vector Bool n) (k : FeatPre)
     (w : Rat) (c : Config Rat) (prev : State Rat) (x0 b : RVec n) (res : Result (RVec n) Rat)
     (h : pcgCorrect (ratSysF A mask k w) c prev x0 b = some res) (hs : res.status = .success)
-    (hit : 0 < res.st.numIter) (hc : calcDef c res.st.numIter = true) :
+    (hit : 0 < res.st.numIter) :
     vnorm (maskF mask (vaxpy b (matVec A res.x) (-1))) ≤ c.tolAbs ∧
       (vnorm (maskF mask (vaxpy b (matVec A res.x) (-1))) ≤
           c.tolRel * vnorm (maskF mask (vaxpy b (matVec A x0) (-1))) ∨
         vnorm (maskF mask (vaxpy b (matVec A res.x) (-1))) ≤ c.tolAbsLow) :=
   C07.pcg_success_true_residual (ratSysF A mask k w) (C07.ratSysF_lawful A mask k w).toLawful c prev x0 b res h hs
-    hit hc
+    hit
 
 /-- PCG `apply()` ignores any start vector (it has none in the model: the harness passes garbage) and equals
     `correct()` from the zero vector whenever the right-hand side is a filtered defect vector -/
@@ -346,14 +363,14 @@ theorem C07.rich_correct_sound (S : Sys V α) (c : Config α) (prev : State α) 
 
 /-- Richardson `success` after at least one iteration ⇒ the true filtered residual meets the tolerances -/
 theorem C07.rich_success_true_residual (S : Sys V α) (c : Config α) (prev : State α) (omega : α) (x0 b : V) (res : Result V α)
-    (h : richCorrect S c prev omega x0 b = some res) (hs : res.status = .success) (hit : 0 < res.st.numIter)
-    (hc : calcDef c res.st.numIter = true) :
+    (h : richCorrect S c prev omega x0 b = some res) (hs : res.status = .success) (hit : 0 < res.st.numIter) :
     S.nrm (resid S b res.x) ≤ c.tolAbs ∧
       (S.nrm (resid S b res.x) ≤ c.tolRel * S.nrm (resid S b x0) ∨ S.nrm (resid S b res.x) ≤ c.tolAbsLow) := by
   have := (C07.rich_correct_sound S c prev omega x0 b res h).2.2.2 (by rw [hs]; simp)
   have h2 := this.2 hit
-  rw [← h2.1 hc]
-  exact (h2.2.1 hs).1
+  have hsu := h2.2.1 hs
+  rw [← h2.1 hsu.1]
+  exact hsu.2.1
 
 /-- Richardson `apply()`: initial defect is `‖b‖` (no start vector), later defects are true residuals -/
 theorem C07.rich_apply_sound (S : Sys V α) (c : Config α) (prev : State α) (omega : α) (b : V) (res : Result V α)
@@ -395,13 +412,14 @@ theorem C07.pcr_apply_sound (S : Sys V α) (hl : LawfulLin S) (c : Config α) (p
 /-- PCR `success` after at least one iteration ⇒ the true filtered residual meets the tolerances -/
 theorem C07.pcr_success_true_residual (S : Sys V α) (hl : LawfulLin S) (c : Config α) (prev : State α) (x0 b : V)
     (res : Result V α) (h : pcrCorrect S c prev x0 b = some res) (hs : res.status = .success)
-    (hit : 0 < res.st.numIter) (hc : calcDef c res.st.numIter = true) :
+    (hit : 0 < res.st.numIter) :
     S.nrm (resid S b res.x) ≤ c.tolAbs ∧
       (S.nrm (resid S b res.x) ≤ c.tolRel * S.nrm (resid S b x0) ∨ S.nrm (resid S b res.x) ≤ c.tolAbsLow) := by
   have := (C07.pcr_correct_sound S hl c prev x0 b res h).2.2.2 (by rw [hs]; simp)
   have h2 := this.2 hit
-  rw [← h2.1 hc]
-  exact (h2.2.1 hs).1
+  have hsu := h2.2.1 hs
+  rw [← h2.1 hsu.1]
+  exact hsu.2.1
 
 /-- PMR `correct()` / `apply()`: recurrence residual = true filtered residual in every iteration, for every
     preconditioner function (statement `SolveSound`, spelled out in `C07.pcg_correct_sound`) -/
@@ -419,13 +437,14 @@ theorem C07.pmr_apply_sound (S : Sys V α) (hl : Lawful S) (c : Config α) (prev
 /-- PMR `success` after at least one iteration ⇒ the true filtered residual meets the tolerances -/
 theorem C07.pmr_success_true_residual (S : Sys V α) (hl : Lawful S) (c : Config α) (prev : State α) (x0 b : V)
     (res : Result V α) (h : pmrCorrect S c prev x0 b = some res) (hs : res.status = .success)
-    (hit : 0 < res.st.numIter) (hc : calcDef c res.st.numIter = true) :
+    (hit : 0 < res.st.numIter) :
     S.nrm (resid S b res.x) ≤ c.tolAbs ∧
       (S.nrm (resid S b res.x) ≤ c.tolRel * S.nrm (resid S b x0) ∨ S.nrm (resid S b res.x) ≤ c.tolAbsLow) := by
   have := (C07.pmr_correct_sound S hl c prev x0 b res h).2.2.2 (by rw [hs]; simp)
   have h2 := this.2 hit
-  rw [← h2.1 hc]
-  exact (h2.2.1 hs).1
+  have hsu := h2.2.1 hs
+  rw [← h2.1 hsu.1]
+  exact hsu.2.1
 
 /-- PCGNR `correct()` (CG on the normal equations; one function `prec` serves as left and right preconditioner call
     sequence): recurrence residual = true filtered residual in every iteration, for every preconditioner function and
@@ -438,13 +457,14 @@ theorem C07.pcgnr_correct_sound (S : Sys V α) (hl : Lawful S) (c : Config α) (
 /-- PCGNR `success` after at least one iteration ⇒ the true filtered residual meets the tolerances -/
 theorem C07.pcgnr_success_true_residual (S : Sys V α) (hl : Lawful S) (c : Config α) (prev : State α) (x0 b : V)
     (res : Result V α) (h : pcgnrCorrect S c prev x0 b = some res) (hs : res.status = .success)
-    (hit : 0 < res.st.numIter) (hc : calcDef c res.st.numIter = true) :
+    (hit : 0 < res.st.numIter) :
     S.nrm (resid S b res.x) ≤ c.tolAbs ∧
       (S.nrm (resid S b res.x) ≤ c.tolRel * S.nrm (resid S b x0) ∨ S.nrm (resid S b res.x) ≤ c.tolAbsLow) := by
   have := (C07.pcgnr_correct_sound S hl c prev x0 b res h).2.2.2 (by rw [hs]; simp)
   have h2 := this.2 hit
-  rw [← h2.1 hc]
-  exact (h2.2.1 hs).1
+  have hsu := h2.2.1 hs
+  rw [← h2.1 hsu.1]
+  exact hsu.2.1
 
 /-- BiCGStab `correct()` (left-preconditioned), for every preconditioner function and whatever control state `st0`
     the previous solve left: terminal status; the initial defect is always `‖F(b − A x0)‖` (also when the
@@ -467,10 +487,11 @@ theorem C07.bicg_correct_sound (S : Sys V α) (hl : Lawful S) (c : Config α) (s
   bicgIntern_spec S hl c st0 b x0 _ res rfl h
 
 /-- BiCGStab `success` after at least one iteration ⇒ the true filtered residual of the returned iterate meets the
-    tolerances (half-step exits included; for full steps whenever the defect was computed) -/
+    tolerances (half-step exits included; no hypothesis about the defect computation: a `success` always rests on a
+    computed defect) -/
 theorem C07.bicg_success_true_residual (S : Sys V α) (hl : Lawful S) (c : Config α) (st0 : State α) (x0 b : V)
     (res : Result V α) (h : bicgCorrect S c st0 x0 b = some res) (hs : res.status = .success)
-    (hit : 0 < res.st.numIter) (hc : calcDef c res.st.numIter = true) :
+    (hit : 0 < res.st.numIter) :
     S.nrm (resid S b res.x) ≤ c.tolAbs ∧
       (S.nrm (resid S b res.x) ≤ c.tolRel * S.nrm (resid S b x0) ∨ S.nrm (resid S b res.x) ≤ c.tolAbsLow) := by
   have hsd := C07.bicg_correct_sound S hl c st0 x0 b res h
@@ -483,8 +504,9 @@ theorem C07.bicg_success_true_residual (S : Sys V α) (hl : Lawful S) (c : Confi
     · rw [← hcur, ← hd0]; exact hconv
     · rw [hs] at hdv; cases hdv
   · have hf := finalStep_facts S c b res hfin
-    rw [← hf.1 hc, ← hd0]
-    exact (hf.2.1 hs).1
+    have hsu := hf.2.1 hs
+    rw [← hf.1 hsu.1, ← hd0]
+    exact hsu.2.1
 
 /-- BiCGStab honours `min_iter` on every `success` return that made iterations — full steps (through
     `_analyse_defect`) and, since the fix of finding c07-edge:F2, half-step exits as well -/
@@ -497,7 +519,7 @@ theorem C07.bicg_success_min_iter (S : Sys V α) (hl : Lawful S) (c : Config α)
   · rcases hhalf.2 with ⟨_, _, _, hmin⟩ | ⟨hdv, _⟩
     · exact hmin
     · rw [hs] at hdv; cases hdv
-  · exact ((finalStep_facts S c b res hfin).2.1 hs).2.2
+  · exact ((finalStep_facts S c b res hfin).2.1 hs).2.2.2
 
 /-- BiCGStab `apply()` = `correct()` from the zero vector on a filtered right-hand side -/
 theorem C07.bicg_apply_eq_correct_zero (S : Sys V α) (hl : Lawful S) (c : Config α) (st0 : State α) (b : V)
@@ -590,7 +612,8 @@ theorem C07.solver_stopping_logic (k : Kind) (S : Sys V α) (c : Config α) (ome
         (res.st.defCur ≤ c.tolRel * res.st.defInit ∨ res.st.defCur ≤ c.tolAbsLow) ∧
         ¬ Diverged c res.st.defInit res.st.defCur ∧ c.minIter ≤ res.st.numIter)) ∧
     (res.status = .maxIter → res.st.numIter = max 1 (max c.minIter c.maxIter) ∧
-      ¬ Converged c res.st.defInit res.st.defCur ∧ ¬ Diverged c res.st.defInit res.st.defCur) ∧
+      (¬ Converged c res.st.defInit res.st.defCur ∨ calcDef c res.st.numIter = false) ∧
+      ¬ Diverged c res.st.defInit res.st.defCur) ∧
     (res.status = .diverged → 0 < res.st.numIter ∧
       (c.divAbs < res.st.defCur ∨ c.divRel * res.st.defInit < res.st.defCur)) ∧
     (res.status = .aborted → res.st.curFin = false) ∧
@@ -625,15 +648,15 @@ theorem C07.cheb_correct_sound (S : Sys V α) (c : Config α) (prev : State α) 
 
 end sessions
 
-/-- the point excluded by `calcDef = true` (open finding c07-edge:F3), by evaluation: Richardson on the 1×1 system
-    `x = 1` with damping 3 (the error doubles per step), `witnessCfg`: `min_iter = max_iter = 2`, `tol_rel = 1` and the default
-    `skip_defect_calc`: the defect is never recomputed (`calcDef = false`), the run returns `success` after 2 iterations
-    with stored defect 1, but the true residual norm of the returned iterate `x = −3` is 4 > tol_rel·def_init = 1 -/
-theorem C07.success_without_defect_calc_witness :
+/-- the former point of finding c07-edge:F3 (fixed in /repo 8aa081eb5), by evaluation: Richardson on the 1×1 system
+    `x = 1` with damping 3 (the error doubles per step), `witnessCfg`: `min_iter = max_iter = 2`, `tol_rel = 1` and the
+    default `skip_defect_calc`: the defect is never recomputed (`calcDef = false`, stored defect 1, true residual norm
+    of the returned iterate `x = −3` is 4 > tol_rel·def_init = 1) — and the run now returns `max_iter`, not `success` -/
+theorem C07.stale_defect_run_reports_max_iter :
     (richApply (ratSys (n := 1) #v[#v[1]] #v[false] none) witnessCfg freshState 3 #v[1]).map
       (fun r => (r.status, r.st.numIter, r.x.toList, r.st.defCur,
         vnorm (maskF #v[false] (vaxpy #v[1] (matVec #v[#v[1]] r.x) (-1))), calcDef witnessCfg r.st.numIter))
-      = some (.success, 2, [-3], 1, 4, false) ∧
+      = some (.maxIter, 2, [-3], 1, 4, false) ∧
     witnessCfg.tolRel = 1 ∧ witnessCfg.minIter = 2 ∧ witnessCfg.maxIter = 2 ∧ witnessCfg.skipDefCalc = true := by
   decide +kernel
 
